@@ -298,6 +298,14 @@ def run(tier):
     rep.check(writers["line"] <= {nl, S + "fetch_stream_end"}, "line-writers", "mark.line", "mark.line is advanced outside skip_nl/fetch_stream_end",
               detail=sorted(short(x) for x in writers["line"]))
 
+    # (c, class part) a line is counted exactly when a break is consumed: E1 pass B over the character-class window
+    from . import classdom
+    for B in ((16,) if tier == "quick" else (8, 16, 128)):
+        EB = classdom.run(F, B)
+        classdom.contract_sites(rep, F, EB, B)
+        n = classdom.break_discipline(rep, F, EB, B, "break-discipline")
+        rep.extra.setdefault("class_pass", {})[str(B)] = {"contexts": EB.contexts, "helper_entry_contexts": n}
+
     # (d) monotone index; Span::new ordering
     for k in sorted(writers["index"]):
         f = F.fns[k]
